@@ -182,8 +182,9 @@ def run_valgrind(t, pid, tier, seed, repo, target):
 
 
 def run_fuzz(t, pid, tier, seed, repo, target):
-    """libFuzzer + ASan on the byte-driven entry of the property (driver/src/fuzz_table.rs).
-    The fuzz target calls the same oracle; an oracle failure aborts the target and leaves an artifact."""
+    """libFuzzer + ASan on the byte-driven entry of the property (driver/src/fuzz_table.rs). The fuzz target
+    calls the same oracle; an oracle failure aborts the target and leaves an artifact, which is then replayed
+    natively (`verif-driver bytes`) to obtain the violation signature."""
     fdir = os.path.join(ROOT, "fuzz")
     if not os.path.exists(os.path.join(fdir, "Cargo.toml")):
         return {"status": "skipped", "reason": "fuzz crate not present"}
@@ -191,47 +192,59 @@ def run_fuzz(t, pid, tier, seed, repo, target):
     tgt = pid.lower()
     secs = int(t.get("secs_quick" if tier == "quick" else "secs_thorough", 30))
     forks = int(t.get("forks", 8))
-    corpus = os.path.join(ROOT, "work", pid + "-fuzz", "corpus")
-    art = os.path.join(ROOT, "work", pid + "-fuzz", "artifacts")
-    shutil.rmtree(os.path.join(ROOT, "work", pid + "-fuzz"), ignore_errors=True)
+    wdir = os.path.join(ROOT, "work", pid + "-fuzz")
+    corpus = os.path.join(wdir, "corpus")
+    art = os.path.join(wdir, "artifacts")
+    shutil.rmtree(wdir, ignore_errors=True)
     os.makedirs(corpus)
     os.makedirs(art)
-    seeds = os.path.join(fdir, "seeds", tgt)
-    if os.path.isdir(seeds):
-        for f in os.listdir(seeds):
-            shutil.copy(os.path.join(seeds, f), corpus)
-    env = _env({"CARGO_TARGET_DIR": tdir})
+    native = os.path.join(target, "strict", "verif-driver")
+    # seed corpus from the monitor's own structure-aware generator
+    subprocess.run([native, "corpus", pid, corpus, str(int(t.get("corpus", 300)))], stdout=subprocess.DEVNULL, stderr=subprocess.DEVNULL, timeout=600)
+    n_seeds = len(os.listdir(corpus))
+    env = _env({"CARGO_TARGET_DIR": tdir, "RUSTFLAGS": "--cfg pendulum_project_ntpd_rs_verif --cap-lints warn -A missing_docs -A unused"})
     t0 = time.time()
-    cfgp = _paths_cfg(repo)
-    b = subprocess.run(["cargo", "+nightly", "fuzz", "build", tgt] + ([] if not cfgp else []), cwd=fdir, env=env,
-                       stdout=subprocess.PIPE, stderr=subprocess.STDOUT, text=True, timeout=3600)
+    base = ["cargo", "+nightly", "fuzz"]
+    common = ["--fuzz-dir", fdir]
+    b = subprocess.run(base + ["build"] + common + [tgt], cwd=DRIVER, env=env, stdout=subprocess.PIPE, stderr=subprocess.STDOUT, text=True, timeout=7200)
     if b.returncode != 0:
         return {"status": "skipped", "reason": "fuzz build failed: " + b.stdout[-400:]}
-    cmd = ["cargo", "+nightly", "fuzz", "run", tgt, corpus, "--", "-timeout=10", "-max_total_time=%d" % secs, "-fork=%d" % forks,
-           "-artifact_prefix=%s/" % art, "-seed=%d" % seed, "-max_len=%d" % int(t.get("max_len", 4096)), "-print_final_stats=1"]
-    r = subprocess.run(cmd, cwd=fdir, env=env, stdout=subprocess.PIPE, stderr=subprocess.STDOUT, text=True, timeout=secs * 4 + 600)
-    out = r.stdout
+    cmd = base + ["run"] + common + [tgt, corpus, "--", "-timeout=10", "-max_total_time=%d" % secs, "-fork=%d" % forks, "-ignore_timeouts=1", "-ignore_ooms=1",
+                                     "-artifact_prefix=%s/" % art, "-seed=%d" % seed, "-max_len=%d" % int(t.get("max_len", 4096)), "-print_final_stats=1"]
+    try:
+        r = subprocess.run(cmd, cwd=DRIVER, env=env, stdout=subprocess.PIPE, stderr=subprocess.STDOUT, text=True, timeout=secs * 3 + 900)
+        out = r.stdout
+    except subprocess.TimeoutExpired as e:
+        out = (e.stdout or b"").decode(errors="replace") if isinstance(e.stdout, bytes) else (e.stdout or "")
     execs = 0
-    for m in re.finditer(r"#(\d+)[:\s]", out):
+    for m in re.finditer(r"#(\d+):? ", out):
         execs = max(execs, int(m.group(1)))
+    cov = 0
+    for m in re.finditer(r"cov: (\d+)", out):
+        cov = max(cov, int(m.group(1)))
     viol = {}
     for f in sorted(glob.glob(os.path.join(art, "*"))):
-        data = open(f, "rb").read()
         kind = os.path.basename(f).split("-")[0]
         if kind in ("timeout", "oom", "slow"):
             continue  # resource exhaustion is not a verdict
-        # ask the native strict driver what this input does (same oracle, gives a signature)
-        sig = "fuzz/%s/%s" % (tgt, kind)
-        m = re.search(r"VERIF-FUZZ-VIOLATION sig=([^\n]+)", out)
-        if m:
-            sig = m.group(1).strip()
+        data = open(f, "rb").read()
         keep = os.path.join(ROOT, "replays", "%s-fuzz-%s.bin" % (pid, os.path.basename(f)[-12:]))
         shutil.copy(f, keep)
-        viol.setdefault(sig, {"sig": sig, "what": "libFuzzer/ASan artifact %s (%d bytes)" % (os.path.basename(f), len(data)),
-                              "detail": {"input_hex": data[:2048].hex(), "artifact": keep}, "idx": 0, "profile": "strict"})
+        sig = "fuzz/%s/%s" % (tgt, kind)
+        what = "libFuzzer/ASan artifact %s (%d bytes)" % (os.path.basename(f), len(data))
+        try:
+            rp = subprocess.run([native, "bytes", pid, f], stdout=subprocess.PIPE, stderr=subprocess.PIPE, text=True, timeout=120)
+            m = re.search(r"VERIF-FUZZ-VIOLATION sig=(.*?) what=(.*)", rp.stdout)
+            if m:
+                sig, what = m.group(1).strip(), m.group(2).strip()[:300]
+            elif rp.returncode == 0:
+                sig = "fuzz/%s/%s/asan-only" % (tgt, kind)
+        except Exception:
+            pass
+        viol.setdefault(sig, {"sig": sig, "what": what, "detail": {"input_hex": data[:2048].hex(), "artifact": keep}, "idx": 0, "profile": "strict"})
     status = "violation" if viol else ("ok" if execs > 0 else "inconclusive")
-    return {"status": status, "engine": "cargo +nightly fuzz (libFuzzer + AddressSanitizer), same oracle as the driver",
-            "executions": execs, "seconds": secs, "forks": forks, "wall_s": round(time.time() - t0, 1),
+    return {"status": status, "engine": "cargo +nightly fuzz (libFuzzer + AddressSanitizer), same oracle as the driver", "executions": execs,
+            "coverage_edges": cov, "seed_corpus": n_seeds, "seconds": secs, "forks": forks, "wall_s": round(time.time() - t0, 1),
             "violations": list(viol.values()), "reason": "fuzzer executed nothing" if status == "inconclusive" else ""}
 
 
